@@ -152,8 +152,8 @@ M("C08-save-first", ["C08", "C02"], "pkg/gengo/context.go",
   "	if c.args.All && c.sumFile != nil {\n		early := c.universe.SumFile()\n		early.Dir = c.sumFile.Dir\n		_ = early.Save()\n	}\n\n	for pkgPath, direct := range c.universe.LocalPkgPaths() {\n		if !c.args.All && !direct {",
   "gengo.sum is saved before the packages are generated")
 M("C08-keep-unloaded", ["C08"], "pkg/gengo/context.go",
-  "		if c.sumFile != nil {\n			sumFile.Dir = c.sumFile.Dir\n		}",
-  "		if c.sumFile != nil {\n			sumFile.Dir = c.sumFile.Dir\n			for k, v := range c.sumFile.Data {\n				if _, ok := sumFile.Data[k]; !ok {\n					sumFile.Data[k] = v\n				}\n			}\n		}",
+  "		if sumDir != \"\" {\n			sumFile.Dir = sumDir\n		}",
+  "		if sumDir != \"\" {\n			sumFile.Dir = sumDir\n		}\n		if c.sumFile != nil {\n			for k, v := range c.sumFile.Data {\n				if _, ok := sumFile.Data[k]; !ok {\n					sumFile.Data[k] = v\n				}\n			}\n		}",
   "entries of packages that were not loaded are kept")
 M("C08-hash-go-only", ["C08"], "pkg/types/load.go", '		return name == "gengo.sum"', '		return name == "gengo.sum" || !strings.HasSuffix(name, ".go")', "only .go files are hashed")
 MUTANTS[-1]["edits"] = [dict(file="pkg/types/load.go", old=MUTANTS[-1]["old"], new=MUTANTS[-1]["new"]),
@@ -216,7 +216,7 @@ M("C04-gfs-order", ["C04"], "pkg/gengo/context.go",
 M("C04-entry-order-dependence", ["C04"], "pkg/types/load.go",
   "					if mod := pkg.Module(); mod != nil {\n						if u.sumFile.Dir == \"\" {\n							u.sumFile.Dir = mod.Dir\n						}\n					}",
   "					if mod := pkg.Module(); mod != nil {\n						if u.sumFile.Dir == \"\" {\n							u.sumFile.Dir = pkgDir\n						}\n					}",
-  "without a previous gengo.sum the file is written into the first registered package's directory")
+  "control since fix a296586: Execute now sets the directory itself (module of the first direct package), the universe's value is only a fallback - equivalent")
 
 # ---------------------------------------------------------------- C05
 M("C05-prototype-reused", ["C05"], "pkg/gengo/context.go",
